@@ -3959,8 +3959,13 @@ class ProfilingDataset(Dataset):
     def __len__(self):
         return len(self.input_dataset)
 
+    @property
     def indexable(self):
-        return self.input_dataset.indexable()
+        return self.input_dataset.indexable
+
+    @property
+    def ordered(self):
+        return self.input_dataset.ordered
 
     def keys(self):
         return self.input_dataset.keys()
